@@ -20,6 +20,12 @@ from vlib.core import PropertyCheck, TranslatorError
 from vlib import paths
 
 TAU = F(1, 10**6)
+RHO = F(1, 10**12)           # relative gap tolerance of the repaired idle-gap test (fixes/C12-3.patch)
+
+
+def vstr(variant, tau):
+    """variant flags for a driver line; the gap tolerance is scaled together with tau (tightness probe)"""
+    return variant.replace("gaprel=RHO", f"gaprel={fs(RHO * tau / TAU)}")
 Q = 30                      # quantum 2^-Q of the dyadic stream
 
 
@@ -107,6 +113,18 @@ def detect_variant():
         v = first_v + " skipzero=1"
     else:
         raise TranslatorError(f"_concatenate_pulses: final_time logic not recognised: final_time={final} end_times={ends}")
+    # fixes/C12-3.patch: idle-gap test against an absolute tolerance (1e-12 * largest start time)
+    gap_tests = [ast.unparse(n.test) for n in ast.walk(fn) if isinstance(n, ast.If)
+                 and ast.unparse(n.test).startswith("np.abs(start_time - last_pulse_time) >")]
+    tol_def = [ast.unparse(n.value) for n in ast.walk(fn)
+               if isinstance(n, ast.Assign) and ast.unparse(n.targets[0]) == "time_tol"]
+    if gap_tests == ["np.abs(start_time - last_pulse_time) > step_size * 1e-06"] and not tol_def:
+        pass
+    elif (gap_tests == ["np.abs(start_time - last_pulse_time) > time_tol"] and first_v == "struct" and tol_def ==
+          ["1e-12 * max([abs(inst[0]) for insts in pulse_instructions for inst in insts], default=0.0)"]):
+        v = v + " gaprel=RHO"
+    else:
+        raise TranslatorError(f"_concatenate_pulses: idle-gap test not recognised: {gap_tests} time_tol={tol_def}")
     # compile: are instructions of zero duration dropped before scheduling?
     cf = None
     for node in ast.walk(tree):
@@ -350,7 +368,7 @@ def case_instr_lines(case, variant, starts, perm, tau):
             lid = labels.setdefault(lab, len(labels))
             ps.append(f"{lid}=" + (f"s:{fs(cf[1])}" if cf[0] == "s" else f"a:{fl(cf[1])}"))
         parts.append(t + "@" + "&".join(ps))
-    line = f"compile first={variant} tau={fs(tau)} "
+    line = f"compile first={vstr(variant, tau)} tau={fs(tau)} "
     if case["mode"]:
         line += f"mode=sched starts={fl(F(x) for x in starts)} perm={','.join(map(str, perm))} "
     else:
@@ -425,11 +443,22 @@ def windows_of(case, starts_sorted_instr):
     return chans
 
 
-def sep_ok(ws, variant):
+def sep_all(chans, variant):
+    tmax = max([abs(w[0]) for ws in chans.values() for w in ws], default=F(0))
+    return all(sep_ok(ws, variant, tmax) for ws in chans.values())
+
+
+def sep_ok(ws, variant, tmax=F(0)):
     """the explicit scale hypothesis of the theorems (Sep) for one channel"""
     last = F(0)
     for j, (s, t, c, kind) in enumerate(ws):
         step = t[1] - t[0]
+        if "gaprel" in variant:
+            gap = s - last
+            if not (gap == 0 or gap > RHO * tmax):
+                return False
+            last = s + t[-1]
+            continue
         if variant.startswith("tol") and j > 0 and not (abs(last) >= step * TAU):
             return False
         gap = s - last
@@ -646,6 +675,8 @@ class C12(PropertyCheck):
         "QipVerif.C12.schedule_unscheduled",
         "QipVerif.C12.schedule_scheduled",
         "QipVerif.C12.compile_channels",
+        "QipVerif.C12.gap_repaired_concatenate",
+        "QipVerif.C12.closed_channel_is_schedule",
         "QipVerif.C12.idle_only_counterexample",
         "QipVerif.C12.scale_counterexample",
         "QipVerif.C12.gap_counterexample",
@@ -796,7 +827,7 @@ class C12(PropertyCheck):
                 chs.append("-")
             else:
                 chs.append(";".join(f"{fs(s)}@{wave_str(tl, cf)}" for s, tl, cf in ws))
-        line = f"concat first={v} tau={fs(tau)}"
+        line = f"concat first={vstr(v, tau)} tau={fs(tau)}"
         if chs:
             line += " chans=" + "!".join(chs)
         return line
@@ -985,7 +1016,7 @@ class C12(PropertyCheck):
                 return False, "precondition not met (overlapping / malformed / mixed-kind instructions on a channel)"
             if not chans and not empty:
                 return False, "no control channel"
-            if not w.get("full") and not all(sep_ok(ws, v) for ws in chans.values()):
+            if not w.get("full") and not sep_all(chans, v):
                 # witnesses of recorded findings carry "full": true and are judged at full strength
                 return False, "outside the scale hypothesis Sep (the class of the recorded finding), not judged"
             if not w.get("full") and not resolution_ok(chans):
@@ -1018,7 +1049,7 @@ class C12(PropertyCheck):
                 chans[i] = lst
             if not chans or not all(ws and precondition(ws) for ws in chans.values()):
                 return False, "precondition not met"
-            if not w.get("full") and not all(sep_ok(ws, v) for ws in chans.values()):
+            if not w.get("full") and not sep_all(chans, v):
                 return False, "outside the scale hypothesis Sep (the class of the recorded finding), not judged"
             if not w.get("full") and not resolution_ok(chans):
                 return False, "final time >= 2^40 steps of the finest pulse (float resolution, recorded finding class), not judged"
@@ -1042,7 +1073,7 @@ class C12(PropertyCheck):
             chans = windows_of(mcase, ordered_instr(mcase, [F(x) for x in starts] if starts else None, perm))
             if not chans:
                 return False, "no control channel"
-            if not w.get("full") and not (all(sep_ok(ws, v) for ws in chans.values()) and resolution_ok(chans)):
+            if not w.get("full") and not (sep_all(chans, v) and resolution_ok(chans)):
                 return False, "outside the scale hypothesis Sep (the class of the recorded finding), not judged"
             # float schedules: only the structural clauses are checked exactly
             for lab, tl, cf in payload:
@@ -1111,7 +1142,7 @@ class C12(PropertyCheck):
             chans = {lab: ws for lab, ws in chans.items() if ws}
             if not chans or not all(precondition(ws) for ws in chans.values()):
                 continue
-            if only_sep and not (all(sep_ok(ws, v) for ws in chans.values()) and resolution_ok(chans)):
+            if only_sep and not (sep_all(chans, v) and resolution_ok(chans)):
                 continue
             done += 1
             w = {"kind": "synthetic", "case": case}
